@@ -34,7 +34,7 @@ theorem removeMapping_mapped_sub (s : State) (before after : List Mapping) (rk k
 theorem dropFailing_pass (k0 : Key) (s : State) (rb after : List Mapping) (k : Key) (hk : k ∉ s.mapped) :
     (k ∈ (dropFailing k0 s rb after).1.pass ↔ k ∈ s.pass) ∧ k ∉ (dropFailing k0 s rb after).1.mapped := by
   induction rb generalizing s after with
-  | nil => simp only [dropFailing]; exact ⟨Iff.rfl, hk⟩
+  | nil => exact ⟨by simp [dropFailing], by simpa [dropFailing] using hk⟩
   | cons m rb ih =>
     simp only [dropFailing]
     split
@@ -50,11 +50,10 @@ theorem releaseTail_pass (s : State) (k0 k : Key) (hne : k ≠ k0) (hnd : s.pass
   unfold releaseTail
   by_cases hc : s.pass.contains k0 = true
   · simp only [hc, if_true]
-    refine ⟨?_, rfl⟩
-    simp only
+    refine ⟨?_, by simp⟩
     rw [mem_removeLast k0 k hnd]
     exact ⟨fun h => h.1, fun h => ⟨h, hne⟩⟩
-  · simp only [hc]; exact ⟨Iff.rfl, rfl⟩
+  · simp only [hc]; exact ⟨by simp, by simp⟩
 
 theorem releaseKey_pass {extra : List Key} (s : State) (k0 k : Key) (hne : k ≠ k0) (hk : k ∉ s.mapped)
     (h : IInv extra s) :
